@@ -31,10 +31,16 @@
 (*   X03.SaveOk, X03.SaveFiles (the OBJ where it was asked for, one        *)
 (*   library iff there are material ranges, nothing else), X03.SaveDirMode *)
 (*   (created directories usable by their owner), X03.SaveMtllib (every    *)
-(*   file name of the mtllib statements names a written library, every     *)
-(*   library is named), X03.SaveObjValid, X03.SaveGroups, X03.SaveCorners, *)
-(*   X03.SaveMtlValid, X03.SaveResolves (ResolveBad), X03.LoadOk,          *)
-(*   X03.LoadGroups, X03.LoadCorners, X03.LoadMaterials (LoadedBad)        *)
+(*   file name of the mtllib statements names a written library - detail   *)
+(*   "name-split-at-blank" when only the whole statement read as one name  *)
+(*   would, "dangling" otherwise - and every library is named),            *)
+(*   X03.SaveObjValid, X03.SaveGroups, X03.SaveCorners, X03.SaveMtlValid,  *)
+(*   X03.SaveResolves (ResolveBad; judged when the libraries are valid and *)
+(*   referenced), X03.LoadOk, X03.LoadGroups, X03.LoadCorners,             *)
+(*   X03.LoadMaterials (LoadedBad) - the Load predicates are judged when   *)
+(*   the written pair is one a reader must accept, and per triangle where  *)
+(*   the pair resolves to the source material (otherwise the Save          *)
+(*   predicates already report the cause)                                  *)
 (*                                                                         *)
 (* {"k":"pl","gobj":..,"gmtls":..,"obj":..,"libs":..,"mtls":..,"lerr":"",  *)
 (*  "ld":[..]}        a hand-made pair of files -> obj.Load                *)
@@ -154,7 +160,9 @@ SvJudge(ln) ==
         libs == IF /\ \A k \in DOMAIN ln.libs : ln.libs[k].hit # 0
                    /\ \A f \in DOMAIN ln.mtls : \E k \in DOMAIN ln.libs : ln.libs[k].hit = f
                 THEN {}
-                ELSE PD("SaveMtllib", {IF \E k \in DOMAIN ln.libs : ln.libs[k].hit = 0 THEN "dangling" ELSE "unnamed"})
+                ELSE PD("SaveMtllib", {IF \A k \in DOMAIN ln.libs : ln.libs[k].hit # 0 THEN "unnamed"
+                                       ELSE IF \A k \in DOMAIN ln.libs : ln.libs[k].hit = 0 => ln.libs[k].linehit # 0
+                                            THEN "name-split-at-blank" ELSE "dangling"})
         den == Obj!Denote(ObjStmts(ln.obj))
         mval == UNION {LET d == MtlDenote(ln.mtls[f].stmts) IN IF d.ok THEN {} ELSE PD("SaveMtlValid", {d.why}) : f \in DOMAIN ln.mtls}
         og == Align(names, Obj!DenGroups(den))
